@@ -264,7 +264,9 @@ fn encframe(f: &Fields) -> String {
             Err(e) => format!("dec=ERR:{}", errclass(&e)),
         }
     };
-    format!("ok bytes={} {}", hex(&out[start..]), dec)
+    // `fixedpick`: the model prints whether a mono FIXED subframe has the order and residuals its `fixedPick` computes; the
+    // implementation's side of that comparison is the frame itself, so the harness states the expected value
+    format!("ok bytes={} {} fixedpick=ok", hex(&out[start..]), dec)
 }
 
 /// facts about a finished file read back through the crate's own metadata reader and frame walker
